@@ -14,9 +14,11 @@ structure PresAt (n : Nat) : Prop where
   guards : ∀ ctx env l gs, Pres (evalGuards n ctx env l gs)
   quals : ∀ ctx env qs body ty o, Pres (evalQuals n ctx env qs body ty o)
   gen : ∀ ctx env x lc i qs body ty o, Pres (evalGen n ctx env x lc i qs body ty o)
+  forRng : ∀ ctx env x ao cur asc lt b, Pres (evalForRng n ctx env x ao cur asc lt b)
+  genRng : ∀ ctx env x ao cur asc lt qs body ty o, Pres (evalGenRng n ctx env x ao cur asc lt qs body ty o)
 
 theorem pres_zero : PresAt 0 := by
-  constructor <;> intros <;> simp only [evalE, evalArgs, evalSeq, evalWhile, evalDoWhile, evalFor, evalForIn, callClo, handle, evalGuards, evalQuals, evalGen] <;> exact Pres.oof
+  constructor <;> intros <;> simp only [evalE, evalArgs, evalSeq, evalWhile, evalDoWhile, evalFor, evalForIn, callClo, handle, evalGuards, evalQuals, evalGen, evalForRng, evalGenRng] <;> exact Pres.oof
 
 syntax "pres_tac" ident : tactic
 macro_rules
@@ -33,6 +35,16 @@ macro_rules
       | exact PresAt.guards $ih _ _ _ _
       | exact PresAt.quals $ih _ _ _ _ _ _
       | exact PresAt.gen $ih _ _ _ _ _ _ _ _ _
+      | exact PresAt.forRng $ih _ _ _ _ _ _ _ _
+      | exact PresAt.genRng $ih _ _ _ _ _ _ _ _ _ _ _
+      | exact Pres.sliceOf _ _
+      | exact Pres.pipeArgs _
+      | exact Pres.rangeDeref _ _
+      | exact Pres.sliceDeref _ _
+      | exact Pres.rngLoopInit _
+      | exact Pres.slcLoopInit _
+      | exact Pres.rngElem _ _
+      | exact Pres.getInt _
       | exact Pres.liftOp _
       | exact Pres.binopM _ _ _
       | exact Pres.truthy _
@@ -100,6 +112,8 @@ theorem presAt : ∀ n, PresAt n
       hdl := fun ctx env cs ex => by cases cs <;> simp only [handle] <;> pres_tac ih
       guards := pres_guards n ih
       quals := pres_quals n ih
-      gen := fun ctx env x lc i qs body ty o => by rw [evalGen]; pres_tac ih }
+      gen := fun ctx env x lc i qs body ty o => by rw [evalGen]; pres_tac ih
+      forRng := fun ctx env x ao cur asc lt b => by rw [evalForRng]; pres_tac ih
+      genRng := fun ctx env x ao cur asc lt qs body ty o => by rw [evalGenRng]; pres_tac ih }
 
 end Never.Src
